@@ -14,6 +14,7 @@ import (
 	"reflect"
 	"strconv"
 	"strings"
+	"time"
 
 	"github.com/antlr4-go/antlr/v4"
 	"github.com/blang/semver"
@@ -83,6 +84,29 @@ func hexBytes(a string) (string, bool) {
 type okStringer struct{ s string }
 
 func (o okStringer) String() string { return o.s }
+
+type valueWithPtrString struct{ s string }
+
+func (v *valueWithPtrString) String() string { return v.s }
+
+// reentrantStringer evaluates rules of its own inside String(): a lock held around user code deadlocks here
+type reentrantStringer struct{ s string }
+
+func (r reentrantStringer) String() string {
+	obj := map[string]interface{}{"q": 1, "s": okStringer{"a"}}
+	const rule = `q eq 1 and s eq "a"`
+	ok1, _ := rules.Evaluate(rule, obj)
+	ok2 := parser.Evaluate(rule, obj)
+	ev, err := parser.NewEvaluator(rule)
+	ok3 := false
+	if err == nil {
+		ok3, _ = ev.Process(obj)
+	}
+	if ok1 && ok2 && ok3 {
+		return r.s
+	}
+	return r.s + "?"
+}
 
 type sliceStringer []string
 
@@ -204,6 +228,18 @@ func other(tag int) interface{} {
 		return func() interface{} { return true }
 	case 37:
 		return func() interface{} { return map[string]interface{}{"admin": true} }
+	case 38: // String() is declared on the pointer type; the value itself is stored: NOT a fmt.Stringer
+		return valueWithPtrString{"abc"}
+	case 39: // YAML-style maps whose KEYS are Stringers that panic / nil pointers whose String dereferences
+		return map[interface{}]interface{}{panicStringer{}: 1}
+	case 40:
+		return map[interface{}]interface{}{(*ptrStringer)(nil): 1, "ok": 2}
+	case 41:
+		return []interface{}{map[string]interface{}{"inner": map[interface{}]interface{}{panicStringer{}: "v"}}}
+	case 42:
+		return []interface{}{1, map[interface{}]interface{}{(*ptrStringer)(nil): "v"}}
+	case 43:
+		return map[interface{}]interface{}{selfPanicStringer{}: map[interface{}]interface{}{panicStringer{}: 1}}
 	case 33: // a list of strings with capitals (in-place lower-casing would show)
 		return []string{"Admin", "ROOT", "Ops"}
 	case 34:
@@ -292,6 +328,25 @@ func buildVal(x *sexp) (interface{}, error) {
 			return nil, errors.New("bad string")
 		}
 		return &ptrStringer{s}, nil
+	case "strver", "strverptr": // the library's own dependency type, a parsed version: a fmt.Stringer, never a string
+		s, ok := hexBytes(a)
+		if !ok {
+			return nil, errors.New("bad string")
+		}
+		v, err := semver.Parse(s)
+		if err != nil || v.String() != s {
+			return nil, errors.New("not a canonical version")
+		}
+		if t == "strver" {
+			return v, nil
+		}
+		return &v, nil
+	case "strreent":
+		s, ok := hexBytes(a)
+		if !ok {
+			return nil, errors.New("bad string")
+		}
+		return reentrantStringer{s}, nil
 	case "strslice": // a Stringer whose dynamic type is not comparable (like net.IP)
 		s, ok := hexBytes(a)
 		if !ok {
@@ -987,7 +1042,17 @@ func doLine(line string) string {
 			return id + " BADCASE"
 		}
 		shareEqualMaps = kind == "evals"
-		return doEval(id, rule, x.list[3])
+		done := make(chan string, 1)
+		go func() { done <- doEval(id, rule, x.list[3]) }()
+		select {
+		case r := <-done:
+			return r
+		case <-time.After(120 * time.Second):
+			// the call never came back (a lock taken around caller code, an endless loop): end the process so the harness names this case
+			fmt.Fprintln(os.Stderr, "driver: case "+id+" did not return within 120 s")
+			os.Exit(3)
+			return ""
+		}
 	case "hist":
 		rule, ok := hexBytes(x.list[2].atom)
 		if !ok || len(x.list) != 4 || !x.list[3].isL {
